@@ -121,6 +121,12 @@ def gen_shape(rng, k):
             lines.append("E\t*\t%s+\t%s+\t1\t3\t0\t%d$\t*" % (a, b, seglen[b]))     # a containment
         if rng.random() < 0.3:
             lines.append("U\tuu\t%s" % rng.choice(segs))
+        if rng.random() < 0.15 and chains:
+            # a set mentions, ahead of any definition, the name a merged chain would get: the name is taken
+            ch = rng.choice(chains)
+            nm = "_".join(x[0] for x in (ch if rng.random() < 0.5 else list(reversed(ch))))
+            if len(ch) >= 2 and nm not in segs:
+                lines.append("U\tbin\t%s" % nm)
         return lines
     # a few other lines (containment, path) to check that untouched lines stay / touched ones go
     if rng.random() < 0.4 and len(segs) >= 2:
@@ -157,6 +163,16 @@ def gen(streams, tier, i):
                 ops.append({"op": "rename", "id": hr.choice(segs), "new": hr.choice(["zq", "zr", "zs", "zt"])})
             else:
                 ops.append({"op": "rm", "id": hr.choice(segs), "how": "rm"})
+    if version == "gfa1" and hr.random() < 0.25:
+        # a trial path over segments that no link joins (gfapy keeps placeholder links for its steps) is added and
+        # removed again: nothing of it is left when the chains are asked for
+        segs = [ln.split("\t")[1] for ln in lines if ln.startswith("S\t")]
+        if len(segs) >= 2:
+            a_, b_ = hr.sample(segs, 2)
+            ops.append({"op": "add", "line": "P\ttrial\t%s%s,%s%s\t*" % (a_, hr.choice("+-"), b_, hr.choice("+-")), "as": "str"})
+            if hr.random() < 0.5:
+                ops.append({"op": "linear_paths_probe"})
+            ops.append({"op": "rm", "id": "trial", "how": hr.choice(["rm", "disconnect"])})
     ops.append({"op": "linear_paths"})
     ops.append({"op": "merge"})
     ops.append({"op": "merge_again"})
@@ -199,6 +215,12 @@ class EndGraph:
         self.other_names = set()
         for ln in text_lines:
             f = ln.split("\t")
+            if f[0] in ("U", "O") and len(f) > 2:
+                # identifiers a group mentions are in use, defined or not (only groups that list no segment are
+                # counted: a group over a chain member goes away with the merge, and its mentions with it)
+                its = [it.rstrip("+-") if f[0] == "O" else it for it in f[2].split(" ")]
+                if not any(it in self.seq for it in its):
+                    self.other_names.update(its)
             if f[0] in ("P", "E", "G", "O", "U") and len(f) > 1 and f[1] != "*":
                 self.other_names.add(f[1])
             for t in f:
@@ -321,10 +343,20 @@ def run(scn, st):
         version = scn["cfg"].get("version", "gfa1")
         if g.version != version:
             return
-        if any(l.virtual for l in ob.reachable_lines(g)):
-            return
+        if k == "linear_paths_probe":
+            core.call(g.linear_paths)
+            continue
+        virt = [l for l in ob.reachable_lines(g) if l.virtual]
+        real_text = [x for x in ob.text_lines(g) if "co:Z:GFAPY_virtual_line" not in x and not x.startswith("?record_type?")]
+        if virt:
+            # placeholders are legitimate only while the document mentions identifiers it does not define; only
+            # sets may do so here (placeholders of unknown type), everything else makes the run unspecified
+            doc = Doc(version, real_text)
+            if doc.dangling() and any(not isinstance(l, gfapy.line.Unknown) for l in virt):
+                return
+            st.count("probe.placeholders_present")
         if k == "linear_paths":
-            pre = EndGraph(ob.text_lines(g), version)
+            pre = EndGraph(real_text, version)
             pre.valid = core.call(g.validate).ok
             if mutated:
                 st.count("probe.after_mutation")
@@ -472,7 +504,7 @@ def check_merge(g, pre, paths, cycles, st):
         def free(base):
             # a joined name already in use (by a line that is not part of the chain) gets the first free suffix
             nm, k_ = base, 2
-            while nm in pre.seq or nm in pre.other_names:
+            while nm in pre.seq or nm in pre.other_names:      # (other_names: also what sets and paths mention)
                 nm = "%s_%d" % (base, k_)
                 k_ += 1
             return nm
